@@ -12,7 +12,70 @@ CANON = re.compile(r"^(-?[0-9]+);(-?[0-9]+);(-?[0-9]+);(-?[0-9]+);(-?[0-9]+);([^
 
 
 def jobs(tier, seed):
-    return _jobs(tier, seed) + [{"suite": True}]
+    return _jobs(tier, seed) + [{"suite": True}] + [{"threads": True, "seed": seed, "i": i} for i in range(2 if tier == "quick" else 8)]
+
+
+def run_threads(job, res):
+    """What encode / decode / copy return is a function of the message alone: not of what another thread (the application
+    thread sending a command while the poll thread builds a reply; a second gateway) encodes at the same moment."""
+    import sys
+    import threading
+
+    from mysensors.message import Message
+
+    rng = core.rng_for("c02-threads", job["seed"], job["i"])
+    pool = []
+    for n in (1, 5, 6, 255, 0):
+        for c in (0, 1, 255):
+            for (t, st) in ((1, 2), (1, 0), (3, 6), (0, 17), (2, 2), (4, 3)):
+                for a in (0, 1):
+                    pool.append([n, c, t, a, st, gen.payload(rng)[0] if rng.random() < 0.5 else rng.choice(["1", "0", "20.5", ""])])
+    rng.shuffle(pool)
+    pool = pool[:60]
+    # few distinct headers, used again and again in alternation (what a memo of recent work would key on)
+    hot = [pool[k % 4][:5] + [str(k)] for k in range(8)]
+    cases = [(f, canon_format(f)) for f in pool + hot * 10]
+    bad = []
+    counts = [0, 0, 0]
+
+    def worker(k, order):
+        for _ in range(40):
+            for f, want in order:
+                m = Message(node_id=f[0], child_id=f[1], type=f[2], ack=f[3], sub_type=f[4], payload=f[5])
+                e = m.encode()
+                d = fields_of(Message(want))
+                cp = fields_of(m.copy(ack=f[3]))
+                counts[k] += 3
+                if e != want:
+                    bad.append(("encode", f, want, e))
+                if d != f:
+                    bad.append(("decode", f, want, d))
+                if cp != f:
+                    bad.append(("copy", f, want, cp))
+
+    old = sys.getswitchinterval()
+    sys.setswitchinterval(1e-6)
+    try:
+        ts = [threading.Thread(target=worker, args=(0, cases)), threading.Thread(target=worker, args=(1, list(reversed(cases)))),
+              threading.Thread(target=worker, args=(2, cases[len(cases) // 2:] + cases[:len(cases) // 2]))]
+        for t in ts:
+            t.start()
+        for t in ts:
+            t.join(600)
+    finally:
+        sys.setswitchinterval(old)
+    # and what the threads left behind must not show in later single-threaded use
+    for f, want in cases[:200]:
+        e = Message(node_id=f[0], child_id=f[1], type=f[2], ack=f[3], sub_type=f[4], payload=f[5]).encode()
+        counts[0] += 1
+        if e != want:
+            bad.append(("encode-afterwards", f, want, e))
+    res.evals += sum(counts)
+    res.count("concurrent_codec_calls", sum(counts))
+    for (what, f, want, got) in bad[:5]:
+        res.violation(f"codec-result-depends-on-concurrent-calls:{what}", f"{what} of {f!r}: {got!r} instead of {want!r} while other threads use the codec",
+                      {"mode": "threads", "fields": f[:5], "payload": f[5]})
+    res.nontrivial(("threads", job["i"]))
 
 
 def _jobs(tier, seed):
@@ -203,6 +266,9 @@ def run(job):
         run_suite_under_contracts(res)
         res.evals += 1
         return res
+    if job.get("threads"):
+        run_threads(job, res)
+        return res
     rng = core.rng_for("c02", job["seed"], job["i"])
     enums = enum_members()
     subsets = [list(c) for r in range(0, 7) for c in itertools.combinations(FIELDS, r)]
@@ -236,6 +302,10 @@ def replay(case):
     mode = case.get("mode")
     if mode == "suite":
         run_suite_under_contracts(res)
+        return res
+    if mode == "threads":
+        for i in range(3):
+            run_threads({"seed": 0, "i": i}, res)
         return res
     if mode == "decenc" or mode == "garbage":
         try:
@@ -271,10 +341,11 @@ def finish(agg, tier):
                 "bools x payloads stratified by Unicode category; (decenc) every int() spelling class (sign, zeros, blanks, "
                 "underscores, Unicode digits) x payload category x line ending; (copy) all 64 replaced-field subsets; (garbage) "
                 "uncarriable input must raise nothing but ValueError; plus the repository's own 730 tests run with encode/copy contracts "
-                "(icontract) installed on the real Message class. distinct = (mode, spelling/kind classes, payload category, "
+                "(icontract) installed on the real Message class; (threads) three real threads encode, decode and copy messages over a few alternating headers at a switch interval of 1 us, each call checked against the independent formatter, then once more single-threaded. distinct = (mode, spelling/kind classes, payload category, "
                 "subset); non-trivial when payload non-empty or a spelling/kind is non-canonical.",
         "floors": [("encdec", c.get("encdec", 0), 5000), ("decenc", c.get("decenc", 0), 5000),
                    ("copy", c.get("copy", 0), 5000), ("copy_subsets_forced", c.get("copy_subsets_forced", 0), 64),
+                   ("concurrent_codec_calls", c.get("concurrent_codec_calls", 0), 50000),
                    ("contract_evaluations:Message.encode", c.get("contract_evaluations:Message.encode", 0), 200),
                    ("contract_evaluations:Message.copy", c.get("contract_evaluations:Message.copy", 0), 50)],
         "assumptions": ["carriable payload = str without ';', CR, LF and with payload == payload.rstrip()",
